@@ -20,7 +20,8 @@ CLAIM = dict(
           'flow] + T′·ω/p[full flow]) with the documented ω/p stencil, −ΣGΔσ for ln pₛ, the diagnostic σ̇ from cumulative sigma integrals; the shallow-water b, g, e '
           'terms, the layer-coupling matrix orientation D[a,b] = min(ρ_b/ρ_a, 1) with zero diagonal, and clipping; the moist corrections use the virtual-'
           'temperature factors; every Coriolis provider is 2Ω sinθ (recorded finding: shallow_water.get_coriolis / shallow_water_states.one_layer hard-wire '
-          '2Ω = radius = 1). Does not decide pointwise agreement with the continuous equations or exact steadiness of the balanced families numerically.'),
+          '2Ω = radius = 1). Does not decide pointwise agreement with the continuous equations or exact steadiness of the balanced families numerically.'
+          ' Later additions: C05.5/C05.6 shared state and metric factors; the div_sec_lat form rule; Coriolis siblings.'),
     note=('Reference forms follow Durran, Numerical Methods for Fluid Dynamics §8.6 and the module docstrings; they are written out in rules/c05.py. Opaque linear '
           'operators (to_modal, laplacian, div/curl, vertical advection, sigma integrals) are compared as function symbols with normalised arguments.'),
     technique='abstract interpretation of every tendency method to terms + normal-form comparison with closed-form references (sympy canonicalisation) + sibling agreement',
